@@ -18,6 +18,20 @@ CHECKS = {
     note="Integer data (values exact). Not generated yet: division by a scalar, in-place forms other than += on a copy, 1x1 sparse constants "
          "(their scalar status is not documented).",
     technique="TLA+ denotational semantics evaluated by TLC on harness-generated expression trees; differential replay into cvxopt.modeling"),
+ "C12": dict(
+    category="model_checking",
+    text="ModelLP.tla (over ModelExpr.tla) gives the meaning of a problem (minimise Eval(obj) subject to Holds(c)), the linear program it denotes by "
+         "the epigraph construction (formed by the specification, independently of modeling.py), the epigraph lemma (checked by TLC on grid points of "
+         "every generated problem), the exact truth of that LP (optimal value as a rational / infeasible / unbounded) decided by TLC from rational "
+         "certificates and bound to the problem's semantics on the grid, and the contract of op.solve per truth class. Every generated problem is built "
+         "with the real operators and solved with format in {dense, sparse} x solver in {default, glpk} in a crash-isolated child; alpha abstracts each "
+         "call (constraints at the returned values, objective.value() against p*, multiplier lengths and signs, multipliers as a dual solution through "
+         "the exact minimum of the Lagrangian of the ORIGINAL piecewise-linear problem over a box, None conventions) and TLC judges, including "
+         "agreement of the four combinations.",
+    design_ref="DESIGN.md section 4 C12",
+    note="Truth and p* are exact (rational certificates verified by TLC). The default solver's documented 'unknown' outcome is tolerated (bounded to 10% of "
+         "the regular problems); rank-deficient LPs are judged with GLPK only. MOSEK is not installed. Sufficiency of the dual check is up to the box radius.",
+    technique="TLA+ problem semantics and LP formation evaluated by TLC; exact certificates decided by TLC; differential replay into op.solve (4 format/solver combinations)"),
  "C13": dict(
     category="model_checking",
     text="OpEdit.tla models the op edit state machine (objective/addconstraint/delconstraint/queries/solve) over a pool of "
